@@ -557,6 +557,11 @@ pub fn spec_sources(content: &str) -> Vec<(String, String)> {
     .collect()
 }
 
+/// all sections of a spec file (any content type), names normalised to URLs
+pub fn spec_sources_all(content: &str) -> Vec<(String, String)> {
+  spec_sources(content)
+}
+
 pub fn prop(tier: Tier) -> Prop {
   let parts = match tier {
     Tier::Quick => vec![
